@@ -26,6 +26,7 @@ RULE = ('weights: strictly monotonic source (2-10 levels; 1 level noted) and '
 RULE += (' Also: integer-typed source coordinates, coordkey other than the dimension name, a linear-profile law for the linear interpSigma with another model top.')
 RULE += (" bpchsigma (one case in 21): the GEOS-Chem class's own interpSigma on the object bpch1/bpch2 return for a reference image with 47-, 30- or 12-layer tracers (copied, profile written): linear profiles in sigma mid-points are reproduced (edge values beyond the inputs unless extrapolating), constant fields stay constant, a random profile is the linear interpolation of its neighbours, target == source is the identity, for the model top, 0 and a top above the model's.")
 RULE += (' N-D coordinate cases also place targets beyond a column\'s source range, with and without extrapolate=True.')
+RULE += (' The 1-D interpDimension cases pass extrapolate=True in three cases of ten (targets beyond the range continue the line).')
 ASSUMPTIONS = [
     'laws, not a reference implementation: non-negativity, partition of '
     'unity, linear exactness, identity, clipping at the edges when not '
@@ -131,7 +132,10 @@ def gen(rng, idx, tier, seed):
         if mode in ('filedim', 'interpvars'):
             spec['rank'] = int(rng.integers(1, 5))
             spec['axis'] = int(rng.integers(0, spec['rank']))
-            spec['extrapolate'] = False
+            # (interpvars takes ready-made weights; interpDimension forwards
+            # the keyword)
+            if mode != 'filedim':
+                spec['extrapolate'] = False
             # the coordinate lives in another variable (coordkey=) while the
             # dimension's namesake variable is a plain index
             spec['coordkey'] = bool(mode == 'filedim' and rng.random() < 0.3)
@@ -639,10 +643,12 @@ def run(spec, res):
             d for d in dims if d != 'z')) if rank > 1 else None
         try:
             if mode == 'filedim':
+                ikw = {'extrapolate': True} if spec.get('extrapolate') \
+                    else {}
                 if ck:
-                    out = f.interpDimension('z', nxs, coordkey=ck)
+                    out = f.interpDimension('z', nxs, coordkey=ck, **ikw)
                 else:
-                    out = f.interpDimension('z', nxs)
+                    out = f.interpDimension('z', nxs, **ikw)
                 res.hook('interpDimension.return')
             else:
                 from PseudoNetCDF.core._functions import interpvars
@@ -663,6 +669,10 @@ def run(spec, res):
                     out = interpvars(f, w.T, 'z')
             got = np.asarray(out.variables['lin'][...], 'f8')
             tz = np.clip(nxs, xs.min(), xs.max())
+            if mode == 'filedim' and spec.get('extrapolate'):
+                # the line continued beyond the source range
+                tz = nxs.copy()
+                facets.append('extrapolate')
             zshape[ax] = nxs.size
             exp = sl * tz.reshape(zshape) + ic
             if got.shape != exp.shape:
@@ -688,6 +698,12 @@ def run(spec, res):
                     hi_ = min(hi_, sx.size - 1)
                     if sx[hi_] == t:
                         lo_ = hi_
+                    # (beyond the range the line through the two outermost
+                    # levels is continued)
+                    if t < sx[0]:
+                        lo_, hi_ = 0, 1
+                    elif t > sx[-1]:
+                        lo_, hi_ = sx.size - 2, sx.size - 1
                     if order[lo_] == kmiss or order[hi_] == kmiss:
                         continue
                     col = np.moveaxis(np.ma.getdata(gm), ax, 0)[j]
